@@ -91,3 +91,24 @@ pub fn c03_race() {
     // B is gone: nothing may be queued for it after its disconnect completed
     vsym::check("race.nothing-for-the-disconnected", drain(&mut brx).len() == 0 || with_writer);
 }
+
+/// a slow subscriber: more than the channel's buffer (100) of unread notifications, then remove / set / remove: every remove
+/// still owes one `removed` notification (the bounded queue gives every fresh sender clone one guaranteed slot)
+pub fn c03_backlog() {
+    let n = mk_primary();
+    mk_db(&n.dbs, "d", "none");
+    let (mut w, mut wrx) = db_client(&n.dbs, "d");
+    let (mut s, mut srx) = db_client(&n.dbs, "d");
+    process_request("watch k", &n.dbs, &mut s);
+    drain(&mut srx);
+    let mut i = 0;
+    while i < 51 { process_request(&["set k v", &i.to_string()].concat(), &n.dbs, &mut w); i += 1; }
+    process_request("remove k", &n.dbs, &mut w);
+    process_request("set k x", &n.dbs, &mut w);
+    process_request("remove k", &n.dbs, &mut w);
+    let got = drain(&mut srx);
+    let mut removed = 0; let mut changed = 0;
+    for l in got.iter() { if l == "removed k\n" { removed += 1; } if l.starts_with("changed k ") { changed += 1; } }
+    vsym::check("backlog.one-removed-per-remove", removed == 2);
+    vsym::check("backlog.one-changed-per-set", changed == 52);
+}
